@@ -184,6 +184,15 @@ def run(ctx, progs):
                 ok = len(cs) == 1 and all(unref(a)[:2] == ('param', i + 1) for i, a in enumerate(cs[0].args()))
                 ctx.ob("R6.8.atomic_forward", b.key, ok, b.where(), f"forwards (self, [val,] order) unchanged to the std atomic's {b.name}")
         ctx.floor("R6.8.atomic_impls", k, 20)
+        # the atomic route refuses misaligned ADDRESSES: the reference-producing sink behind Bytes::store/load is dominated by a
+        # successful alignment check of the slice's own address for the same T (rule shared with C01 R1.5)
+        from . import c01
+
+        def rep68(rule, instance, ok, where="", detail="", key=None):
+            if "get_atomic_ref" in instance or rule == "R1.5.alignment_mask":
+                return ctx.ob(rule.replace("R1.5", "R6.8.atomic"), instance, ok, where, detail)
+            return ok
+        c01.rule_references(rep68, prog, eff)
         for nm in ("store", "load"):
             for b in prog.find(adt="volatile_memory::VolatileSlice", trait=BYTES, name=nm):
                 for cb in prog.closures_of(b):
